@@ -1342,9 +1342,21 @@ func uniqueAddrsRule(p *Prog, c *Check, rule string) {
 			why = "the set is not extended with the current address"
 			continue
 		}
+		// membership test: the comma-ok form for any set, or the value itself for a map[T]bool that only
+		// ever stores true
+		boolSet := false
+		if mt, isMap := set.Type().Underlying().(*types.Map); isMap {
+			if bt, isB := mt.Elem().Underlying().(*types.Basic); isB && bt.Kind() == types.Bool && fi.T(upd.Value).s == "true" {
+				boolSet = true
+			}
+		}
 		absent := fi.everyIteration(l, func(a Atom) bool {
 			b2 := Binds{"a": param, "i": l.Idx}
-			return ParseAtomPat("ok($s[$a[$i]]) == false").Match(a, b2) && b2["s"].s == fi.T(set).s
+			if ParseAtomPat("ok($s[$a[$i]]) == false").Match(a, b2) && b2["s"].s == fi.T(set).s {
+				return true
+			}
+			b3 := Binds{"a": param, "i": l.Idx}
+			return boolSet && ParseAtomPat("$s[$a[$i]] == false").Match(a, b3) && b3["s"].s == fi.T(set).s
 		})
 		if !absent {
 			why = "an iteration can continue although the current address is already in the set (or without looking it up)"
